@@ -140,6 +140,47 @@ def refreshSpecWhy (i : Nat) (before : ListObs) (f : Fetch) (attempted : Bool) (
       else if after.checksum != crcLines 0 (specLines data) then some "checksum-is-not-crc-of-rule-lines"
       else none
 
+/-- Monitor of one `set_url` request on list `i` (not a refresh, so the
+property text covers it only by analogy; the checksum is deliberately not
+constrained on failure — observation O1): a refused request changes neither
+URL, file, count nor the rules in force; an accepted one leaves the old file
+or stores the normal form of the complete body fetched for it. -/
+def setSpecWhy (before : ListObs) (ok : Bool) (urlChanged : Bool) (f : Fetch) (after : ListObs) : Option String :=
+  if !ok then
+    (if urlChanged then some "failed-seturl-changed-url"
+     else if after.file != before.file || after.rewritten then some "failed-seturl-changed-file"
+     else if after.count != before.count then some "failed-seturl-changed-count"
+     else if after.inForce != before.inForce then some "failed-seturl-changed-rules-in-force"
+     else none)
+  else if after.file != before.file || after.rewritten then
+    match f with
+    | .body data true =>
+      if after.file != some (normalForm data) then some "seturl-stored-form-not-normal"
+      else if after.count != (specLines data).length then some "seturl-count-is-not-number-of-rule-lines"
+      else if after.checksum != crcLines 0 (specLines data) then some "seturl-checksum-is-not-crc-of-rule-lines"
+      else none
+    | _ => some "seturl-stored-without-complete-body"
+  else none
+
+/-- One operation on a single list: a refresh attempt or a set_url request. -/
+inductive LOp where
+  | refresh (f : Fetch)
+  | setURL (rq : SetReq) (f : Fetch)
+
+def applyOp (flt : Flt) : LOp → Flt
+  | .refresh f => refreshOne flt f
+  | .setURL rq f => (setProps flt rq f).flt
+
+/-- What holds of a list at every moment of every history of refreshes and
+set_url requests: there is no file and the metadata are zero, or the file is
+exactly the stored form of ONE complete successful download and count and
+checksum are each either zero or those of that download. -/
+def WeakConsistent (flt : Flt) : Prop :=
+  (flt.file = none ∧ flt.count = 0 ∧ flt.checksum = 0) ∨
+  ∃ data, (parse data true).err = none ∧ flt.file = some (parse data true).out ∧
+    (flt.count = 0 ∨ flt.count = (parse data true).st.count) ∧
+    (flt.checksum = 0 ∨ flt.checksum = (parse data true).st.crc)
+
 /-- The engine's view of a list agrees with its file. -/
 def InSync (l : LState) : Prop := l.inForce = (if l.flt.enabled then l.flt.file else none)
 
